@@ -11,9 +11,9 @@ RULE = ("Cases: (exhaustive) every sequence of length 3..7 (quick) / 3..9 (thoro
         "get_padded_extrema for pad_width 0..5 x parabolic on/off x {peaks,troughs,abs_peaks} (36 calls) and "
         "interp_envelope for pad_width 1..5 x parabolic on/off x {upper,lower,combined} x {splrep,pchip,mono_pchip} "
         "(90 calls); (random) Hypothesis signals up to 300 samples from all families (ties, plateaus, edge plateaus) "
-        "with drawn pad width, memory layout (contiguous / strided view / read-only), custom np.pad option dicts from the tutorials, refinement and method. Oracle: None iff "
+        "with drawn pad width, memory layout (contiguous / strided view / read-only), storage dtype (float64 / float32 / int64 / int16), custom np.pad option dicts from the tutorials, refinement and method. Oracle: None iff "
         "<2 strict extrema of the kind; interior extrema == strict local maxima/minima (parabola vertex within +-1 "
-        "sample when refined); locations strictly increasing, first <0 and last >=N when padded; whole vectors == "
+        "sample when refined); locations strictly increasing, first <0 and last >N-1 when padded; whole vectors == "
         "np.pad of the interior with the given options; envelope has N values equal (1e-9) to the interpolant "
         "rebuilt from the returned extrema AND from the reference extrema, evaluated at t=0..N-1; unrefined "
         "envelopes pass through their extrema. Non-trivial: >=2 extrema of some requested kind.")
@@ -31,6 +31,7 @@ def _arg(x):
 
 
 def check_extrema(emd, x, mode, pad, par, lpo, mpo, rec):
+    xt, x = x, np.asarray(x, dtype=float)       # xt: as stored (handed to emd); x: the same values as floats (reference)
     N = x.size
     tag = '%s/pad=%s/%s' % (mode, 'zero' if pad == 0 else 'pos', 'parabolic' if par else 'plain')
     kw = {}
@@ -45,7 +46,7 @@ def check_extrema(emd, x, mode, pad, par, lpo, mpo, rec):
     except Exception as e:   # np.pad rejects the option set
         ref_err = e
     try:
-        locs, mags = emd.sift.get_padded_extrema(_arg(x), pad_width=pad, mode=mode, parabolic_extrema=par, **kw)
+        locs, mags = emd.sift.get_padded_extrema(_arg(xt), pad_width=pad, mode=mode, parabolic_extrema=par, **kw)
     except Exception as e:
         if ref_err is not None:
             rec.cls('np.pad-rejects-options')
@@ -66,7 +67,7 @@ def check_extrema(emd, x, mode, pad, par, lpo, mpo, rec):
     if locs.shape != rl.shape:
         # the number of padding passes is decided by `last location >= N` / `first location < 0`; with refined
         # (fractional) locations that comparison can sit on a rounding knife-edge - then either count is right
-        edge = min(abs(v - b) for b in (0.0, float(N)) for v in (rl.min(), rl.max(), locs.min(), locs.max()))
+        edge = min(abs(v - b) for b in (0.0, float(N - 1)) for v in (rl.min(), rl.max(), locs.min(), locs.max()))
         short, long_ = (locs, rl) if locs.size < rl.size else (rl, locs)
         off = (long_.size - short.size) // 2
         if par and edge <= 1e-9 * N and (long_.size - short.size) % 2 == 0 and \
@@ -90,7 +91,7 @@ def check_extrema(emd, x, mode, pad, par, lpo, mpo, rec):
     if not np.all(np.diff(locs) > 0):
         if lpo is None:
             raise Violation('C05/get_padded_extrema/not-strictly-increasing/' + tag, '%r' % (locs.tolist()[:12],))
-    if pad > 0 and (not locs[0] < 0 or not locs[-1] >= N):
+    if pad > 0 and (not locs[0] < 0 or not locs[-1] > N - 1):
         raise Violation('C05/get_padded_extrema/ends-not-covered/' + tag, 'locs %r N=%d' % (locs.tolist()[:12], N))
     if not (np.allclose(locs, rl, rtol=0, atol=1e-9) and np.allclose(mags, rm, rtol=1e-9, atol=1e-9)):
         raise Violation('C05/get_padded_extrema/pads-differ-from-np.pad/' + tag,
@@ -99,6 +100,7 @@ def check_extrema(emd, x, mode, pad, par, lpo, mpo, rec):
 
 
 def check_envelope(emd, x, which, method, pad, par, lpo, mpo, rec):
+    xt, x = x, np.asarray(x, dtype=float)
     N = x.size
     tag = '%s/%s/%s' % (which, method, 'parabolic' if par else 'plain')
     eo = {'pad_width': pad, 'parabolic_extrema': par}
@@ -115,7 +117,7 @@ def check_envelope(emd, x, which, method, pad, par, lpo, mpo, rec):
         ref_err = e
     eo0 = {k: (dict(v) if isinstance(v, dict) else v) for k, v in eo.items()}
     try:
-        out = emd.sift.interp_envelope(_arg(x), mode=which, interp_method=method, extrema_opts=eo, ret_extrema=True)
+        out = emd.sift.interp_envelope(_arg(xt), mode=which, interp_method=method, extrema_opts=eo, ret_extrema=True)
     except Exception as e:
         if ref_err is not None or pad == 0:
             rec.cls('clean-exception(pad=0 or np.pad/scipy rejects)')
@@ -139,7 +141,7 @@ def check_envelope(emd, x, which, method, pad, par, lpo, mpo, rec):
     if pad == 0:
         return 1
     knife = par and np.asarray(locs).size != rl.size and \
-        min(abs(v - b) for b in (0.0, float(N)) for v in (rl.min(), rl.max(), np.min(locs), np.max(locs))) <= 1e-9 * N
+        min(abs(v - b) for b in (0.0, float(N - 1)) for v in (rl.min(), rl.max(), np.min(locs), np.max(locs))) <= 1e-9 * N
     if knife:
         rec.cls('padding-pass-count-on-a-rounding-knife-edge')
     if not knife and not np.allclose(env, ref_env, rtol=1e-9, atol=scale):
@@ -194,7 +196,7 @@ def random_case(draw):
             'mode': draw(st.sampled_from(MODES_X)), 'which': draw(st.sampled_from(sorted(MODES_E))),
             'method': draw(st.sampled_from(METHODS)), 'mpo': draw(st.sampled_from(MAG_OPTS)),
             'lpo': draw(st.sampled_from(LOC_OPTS)), 'two_d': draw(st.booleans()),
-            'layout': draw(st.sampled_from(gens.LAYOUTS))}
+            'layout': draw(st.sampled_from(gens.LAYOUTS)), 'dtype': draw(st.sampled_from(['f8', 'f8', 'f8', 'f4', 'i8', 'i2']))}
 
 
 def oracle_random(case, rec):
@@ -202,6 +204,14 @@ def oracle_random(case, rec):
     x = gens.sig_of(case['sig'])
     if not np.all(np.isfinite(x)):
         raise Discard('non-finite')
+    dt = case.get('dtype', 'f8')
+    if dt != 'f8':        # the same kind of signal stored as float32 / integers (scaled by 100 and rounded, like ADC counts)
+        x = gens.sig_of(dict(case['sig'], dtype=dt)) if 'family' in case['sig'] else \
+            (x.astype(np.float32) if dt == 'f4' else np.round(x * 100).astype(np.int64 if dt == 'i8' else np.int16))
+    rec.cls('dtype=' + dt)
+    if dt != 'f8' and case['mpo'] and case['mpo'].get('stat_length', 1) != 1:
+        raise Discard('np.pad computes the statistic of the magnitudes (mean / median over > 1 values) in their storage dtype '
+                      '(integers, float32): the padded values then depend on the dtype by numpy\'s own definition')
     x = gens.relayout(x, case.get('layout', 'C'))     # the routines receive x.copy() - see below - or the view itself
     rec.cls('layout=' + case.get('layout', 'C'))
     nt = max(check_extrema(emd, x, case['mode'], case['pad'], case['par'], case['lpo'], case['mpo'], rec), 0)
